@@ -50,6 +50,18 @@ def gen_cases(rng, tier):
             c = tc.thr_case(rng, True)
         c["targets"] = [enc(t) for t in rng.sample(EXTREMES, 4)]
         cases.append(c)
+    # targets strictly beyond the scale on arbitrary doubles, linear: both neighbours clip to the end sample s and the
+    # interpolation la*s + (1-la)*s rounds (sometimes inwards) before the end-of-range rule replaces it
+    for _ in range({"quick": 160, "thorough": 1500, "search": 600}[tier]):
+        c = tc.thr_case(rng, False, metric=rng.choice(["fnr", "fpr", "fnr", "fpr", "tpr", "tnr", "topr", "tonr"]), method="linear")
+        n1, n2 = rng.randint(1, 11), rng.randint(1, 11)
+        c["pos"] = [enc(Fraction(rng.gauss(0.5, 1.0))) for _i in range(n1)]
+        c["neg"] = [enc(Fraction(rng.gauss(-0.5, 1.0))) for _i in range(n2)]
+        c["dtype"] = "float64"
+        c.pop("dtype_pos", None), c.pop("dtype_neg", None)
+        c["exact"] = False
+        c["targets"] = [enc(Fraction(t)) for t in (-0.1, -0.3, 1.1, 1.7, -0.7)]
+        cases.append(c)
     return cases
 
 
